@@ -9,6 +9,7 @@ exit 3: (internal) candidate violations need confirmation by fresh-process repla
 import glob, json, os, re, shutil, subprocess, sys, time
 
 VERIF = '/verif'
+SCR_DIR = ['']
 
 COMPONENTS = {
     "real_code": [
@@ -76,6 +77,13 @@ def write_evidence(prop, tier, seed, outs, wall, violations, known_hit, unconfir
         states.update(o.get('states') or [])
     hours = max(wall, 1) / 3600.0
     inst = {}
+    try:
+        rep = json.load(open(os.path.join(SCR_DIR[0], 'instrument.json')))
+        inst = {'files_rewritten': rep.get('files_rewritten'), 'sites': len(rep.get('sites') or []),
+                'map_range_sites': sum(1 for x in rep.get('sites') or [] if x['kind'] == 'map-range'),
+                'sort_slice_sites': sum(1 for x in rep.get('sites') or [] if x['kind'] == 'sort.Slice')}
+    except Exception:
+        pass
     ev = {
         'property_id': prop, 'tier': tier, 'seed': int(seed), 'level': level,
         'coverage': {
@@ -98,6 +106,7 @@ def write_evidence(prop, tier, seed, outs, wall, violations, known_hit, unconfir
             'workers': len(outs),
             'seeds_sample': seeds[:40],
             'components': COMPONENTS,
+            'instrumentation_of_scratch_copy': inst,
             'known_findings_reproduced': known_hit,
             'exhaustive': False,
         },
@@ -138,6 +147,7 @@ def main():
         return 0
 
     prop, tier, seed, scr, wall = sys.argv[2], sys.argv[3], sys.argv[4], sys.argv[5], float(sys.argv[6])
+    SCR_DIR[0] = scr
     outs = gather(scr)
     known = load_known(prop)
     infra, cands, known_hit = [], [], {}
